@@ -1,6 +1,7 @@
 //! vh — conformance harness binding the TLA+ specifications in /verif/spec to the real
 //! pdatastructs code (path dependency on /repo, built with --cfg pdatastructs_verif).
 mod common;
+mod ck;
 mod qf;
 
 use common::*;
@@ -62,6 +63,9 @@ fn main() {
         ("replay", "qf") => replay::<qf::QfSut>(&args),
         ("scenario", "qf") => scenario::<qf::QfSut>(&args),
         ("drive", "qf") => qf::drive(&args),
+        ("replay", "ck") => replay::<ck::CkSut>(&args),
+        ("scenario", "ck") => scenario::<ck::CkSut>(&args),
+        ("drive", "ck") => ck::drive(&args),
         _ => {
             eprintln!("unknown command {:?}", &args[..args.len().min(2)]);
             std::process::exit(2);
